@@ -6,12 +6,17 @@ under the scheduler; every call compared with a direct per-edge-end tally.
 """
 import networkx as nx
 
+import gcmpy.tools.joint_excess_joint_degree as _jejd_module
+import gcmpy.tools.joint_excess_joint_degree_matrices as _mat_module
 from gcmpy.tools.joint_excess_joint_degree import JointExcessJointDegree
 from gcmpy.tools.joint_excess_degree import JointExcessDegree
 from gcmpy.names.tools_names import ToolsNames
 
-from .. import netsim
+from .. import netsim, setseam
 from ..engine import describe_exc
+
+setseam.install(_jejd_module)
+setseam.install(_mat_module)
 
 ID = "C13"
 RUNS = {"quick": 24000, "thorough": 200000, "thorough_s": 240}
@@ -58,6 +63,7 @@ def generate(prng, tier, index):
         ops.append(prng.choice(("same", "same", "fresh", "overall")))
     sc["ops"] = ops
     sc["names_prefix"] = prng.choice((ntop, ntop, ntop, max(1, ntop - 1)))
+    sc["set_order"] = prng.choice(("natural", "natural", "reversed", "shuffled"))
     return sc
 
 
@@ -125,6 +131,15 @@ def check_matrices(sc, ctx, G, names, res, tag):
 
 
 def execute(sc, ctx):
+    mode = sc.get("set_order", "natural")
+    before_it = setseam.ITERATIONS
+    with setseam.ordering(mode, ctx.source("setorder", None)):
+        _execute(sc, ctx)
+    if mode != "natural" and setseam.ITERATIONS > before_it:
+        ctx.fault("set_iteration_order")
+
+
+def _execute(sc, ctx):
     P = "C13"
     topos = sc["topos"]
     src = ctx.source("gen", sc.get("policy"))
